@@ -11,7 +11,10 @@ CHECKS = {
                 text='Exhaustive TLC model check of the lock protocol inside the operational spec USim (all client programs '
                      'in the bound: contention, re-entry, until-interrupt, cancel, forced close at every activation boundary), '
                      'one witness program per distinct post-operation state replayed on the real Lock, and every recorded '
-                     'trace validated by TLC against the monitor ObsC09 (mutual exclusion, FIFO grants, available, never stuck).',
+                     'trace validated by TLC against the monitor ObsC09 (mutual exclusion, FIFO grants, available, never stuck).  '
+                     'Added: TLC checks that USim REFINES the abstract lock LockAbs (owner, depth, FIFO queue; USimRef.tla) with the '
+                     'action properties FifoHandOff / OrderKept, Apalache proves the invariant of LockAbs inductive, and seeded '
+                     'waiter storms (3..6 contenders, some leaving from the middle of the waiting list) are validated too.',
                 note='Bounded: <=3 contenders, <=5 ops each, 1 lock, small horizon. Trusts TLC, the puppet harness '
                      '(public API only) and the event vocabulary; the verdict comes only from real traces rejected by ObsC09.'),
     'C03': dict(obs='ObsC03', ref='4/C03',
@@ -53,20 +56,26 @@ CHECKS = {
                 text='TLC explores until(delay)/until(flag) (already true, set/reset in one step, nested, equal deadlines) racing '
                      'with completion, children and failures; replay on the real code; TLC validates against ObsC07: block ends '
                      'no later than the trigger time, never raises its own interrupt, no owner/child code after the trigger, no '
-                     'interrupt after completion, no interrupt before the trigger.  Random programs with until-blocks on decimal float '
+                     'interrupt after completion, no interrupt before the trigger; until(<connective of flags>) is explored too (the monitor '
+                     'evaluates the connective over the observed flag values; known finding KF-C07-until-connective).  Random programs with until-blocks on decimal float '
                      'dates entered at fractional times (dates mapped to ranks) and the whole-vocabulary corpus are validated too.',
-                note='Bounded programs; notification kinds: delay, flag, date conditions (time >= d, time == d).'),
+                note='Bounded programs; notification kinds: delay, flag, date conditions (time >= d, time == d), connectives of flags.'),
     'C10': dict(obs='ObsC10', ref='4/C10',
                 text='TLC explores all programs of <=3 producers/consumers on a Queue (put/get/close, until-interrupts, cancel and '
                      'forced close at every boundary, including the read-mutex hand-over); witnesses replayed on the real Queue; '
                      'TLC validates real traces against ObsC10: receives follow put order exactly once, waiting receivers served '
-                     'in order, StreamClosed only after buffered items, put on closed refused, and received + drained = accepted.',
-                note='Bounded programs, distinct integer items. The remaining buffer is observed by a fresh consumer in a fresh simulation.'),
+                     'in order, StreamClosed only after buffered items, put on closed refused, and received + drained = accepted.  Added: TLC '
+                     'checks that USim REFINES the abstract queue QueueAbs (and its read mutex LockAbs) with HeadOnly / RecvOrder, '
+                     'Apalache proves the invariant Exact of QueueAbs inductive; receiver storms (3..6 waiting receivers, some '
+                     'leaving from the middle) are validated; items are distinct objects that compare equal.',
+                note='Bounded programs, items are distinct-but-equal objects identified by an integer id. The remaining buffer is observed by a fresh consumer in a fresh simulation.'),
     'C11': dict(obs='ObsC11', ref='4/C11',
                 text='TLC explores all programs of <=3 producers/consumers on a Channel (iteration with late subscription, single '
                      'await, leave, close, interrupts/cancel/close at every boundary); replay on the real Channel; TLC validates '
                      'against ObsC11: per consumer exactly the puts after its subscription, in order, once; single await gets the '
-                     'first message; close semantics; nobody left waiting for a message that was put.',
+                     'first message; close semantics; nobody left waiting for a message that was put.  TLC also checks the invariant '
+                     'ChannelExact on every state (each consumer buffer is the gapless run of messages it has not received yet); '
+                     'messages are distinct objects that compare equal.',
                 note='Bounded programs; a consumer iterator is kept by the puppet until it stops explicitly or its generator ends.'),
     'C01': dict(obs='ObsC01', ref='4/C01',
                 text='TLC checks FutureOnly/NoFault on all bounded programs of delays, date conditions (>=, ==, < incl. past, now, '
@@ -86,7 +95,8 @@ CHECKS = {
                      'flat connectives (value changes that revert inside one time step, several waiters); replay on the real '
                      'conditions; TLC validates real traces against ObsC08, whose own evaluator recomputes every expression from the '
                      'observed atom values: true at resume, nobody left waiting at the end of a time step in which the condition '
-                     'holds, bool(c) / bool(~c) agree with boolean algebra.',
+                     'holds, bool(c) / bool(~c) agree with boolean algebra.  Tracked resource levels with ONE and with TWO resource types '
+                     '(vector comparisons: every type for >= <= > <, all equal for ==, negation for !=; set() of a subset of the types).',
                 note='Nested connectives are a recorded known finding (KF-C08-nested-connective); tracked-value comparisons are '
                      'covered with the resource model (C12).'),
     'C20': dict(obs='ObsC20', ref='4/C20',
@@ -103,8 +113,10 @@ CHECKS = {
                      'levels never negative, level within [supply - everything out, supply - what the observer holds], level = '
                      'supply - held at quiescence, claims decided on entry without waiting, no borrower starved, nested <= share.  '
                      'Seeded random tear-downs of several holders of one supply (failing / interrupted / cancelled scope) while the '
-                     'supply is changed, borrowed from and probed in the same time step are validated as well.',
-                note='One resource name, amounts 0..2. The leak after an interrupt during acquisition/release is an open known '
+                     'supply is changed, borrowed from and probed in the same time step are validated as well.  Supplies with TWO resource '
+                     'types (vector levels: a borrow waits for and takes all types in one step, a claim fails if any type is '
+                     'short, set() of a subset of the types) are explored with the same model and monitor.',
+                note='One or two resource names, amounts 0..2. The leak after an interrupt during acquisition/release is an open known '
                      'finding (KF-C12-interrupted-transfer); other leaks are violations.'),
     'C14': dict(obs='ObsC14', ref='4/C14',
                 text='TLC checks the ticker model inside USim (interval/delay with periods incl. 0, bodies shorter/equal/longer than '
@@ -130,7 +142,9 @@ CHECKS = {
                      'min(limit, limit*P/sum limits)); Pipe.tla lets TLC enumerate every scenario (pipe throughput incl. unbounded, '
                      '<=2 (thorough 3) transfers x volume x limit x start x cancel date) and checks sanity properties of the '
                      'semantics; every scenario runs on the real Pipe/UnboundedPipe (transfers as tasks, cancellations by the '
-                     'root) and TLC validates the observed start/completion/abort dates against the fluid model (ObsC13).',
+                     'root or by a forced close) and TLC validates the observed start/completion/abort dates against the fluid model '
+                     '(ObsC13).  A second scenario space has limits of very different magnitude (1 vs 1e17, modelled as the limit '
+                     'l -> infinity).',
                 note='Float dates are snapped by the harness to the rational with denominator <= 5000 within relative 1e-9 '
                      '(the property\'s "up to floating point rounding"); dates that are not representable are reported.',
                 technique='TLA+ fluid semantics PipeSem evaluated by TLC for every enumerated scenario; all scenarios replayed on '
